@@ -60,6 +60,12 @@ func init() {
 			return 6
 		},
 		Run: runC14,
+		Asan: func(tier string) int {
+			if tier == "thorough" {
+				return 120
+			}
+			return 12
+		},
 		Rule: "even cases: 400 generated messages (all 24 types round-robin; payload depth<=6, width<=8; boundary integers up to +-2^53, floats incl. integral/-0/subnormal/1e308, " +
 			"strings incl. multi-byte/U+2028/controls/quotes, null, bool, empty and nested containers, binary) x 3 formats: round-trip, cross-format canonical equality and encoded-list shape; " +
 			"odd cases: 2000 (thorough: 6000) hostile byte strings (random, and mutations of valid encodings: bit flips, truncation, splices, length edits, type-code swaps, deep nesting, huge declared lengths) into " +
